@@ -685,3 +685,85 @@ func ChanLen[T any](ch <-chan T) int {
 	}
 	return len(ch)
 }
+
+// --- sync.Cond ----------------------------------------------------------------
+//
+// c.Wait() must not block the only running task: the waiter is queued in a side
+// table, releases c.L, hands the baton over until Signal/Broadcast marks it, and
+// takes c.L again (spinning on TryLock like LockVia).
+
+type condWaiter struct{ woken bool }
+
+type condEntry struct {
+	c *sync.Cond
+	q []*condWaiter
+}
+
+var condTab []*condEntry
+
+//go:noinline
+func ResetCondTable() { condTab = condTab[:0] }
+
+func condFind(c *sync.Cond) *condEntry {
+	for _, e := range condTab {
+		if e.c == c {
+			return e
+		}
+	}
+	e := &condEntry{c: c}
+	condTab = append(condTab, e)
+	return e
+}
+
+//go:noinline
+func CondWait(c *sync.Cond) {
+	if ForceSwitch == nil {
+		c.Wait()
+		return
+	}
+	e := condFind(c)
+	w := &condWaiter{}
+	e.q = append(e.q, w)
+	c.L.Unlock()
+	defer func() {
+		// (also when the run is stopped while waiting: Wait returns holding L)
+		if tl, ok := c.L.(interface{ TryLock() bool }); ok {
+			for !tl.TryLock() {
+				if ForceSwitch == nil {
+					c.L.Lock()
+					return
+				}
+				switchNow()
+			}
+			return
+		}
+		c.L.Lock()
+	}()
+	for !w.woken {
+		switchNow()
+	}
+}
+
+//go:noinline
+func CondSignal(c *sync.Cond) {
+	if ForceSwitch != nil {
+		e := condFind(c)
+		if len(e.q) > 0 {
+			e.q[0].woken = true
+			e.q = e.q[1:]
+		}
+	}
+	c.Signal()
+}
+
+//go:noinline
+func CondBroadcast(c *sync.Cond) {
+	if ForceSwitch != nil {
+		e := condFind(c)
+		for _, w := range e.q {
+			w.woken = true
+		}
+		e.q = e.q[:0]
+	}
+	c.Broadcast()
+}
